@@ -402,8 +402,8 @@ clmr('ClmFile_OpenStream', ['C05', 'C13', 'C03'], replay={'driver': 'clmr_replay
 MAPIO_TRUST = ['vector resize, size-prefixed container reads and ReadTilesetSources as abstract contracts that keep the stream a K_R stream (contracts/mapio.contracts)', KR_TRUST]
 MAPIO_R = RD + ['vec_Tile_resize', 'vec_u32_resize', 'Map_ReadTilesetSources', 'Reader_ReadSized_u32_vec_TileMapping', 'Reader_ReadSized_u32_vec_TerrainType', 'Reader_ReadSized_u32_str',
                 'Map_CheckMinVersionTag', 'MapHeader_WidthInTiles', 'MapHeader_TileCount', 'MapHeader_ctor', 'Map_ctor', 'IsPowerOf2', 'Log2OfPowerOf2', 'Wr_Write']
-def mapio(fn, props, reach=EXC2, replace=(), **kw):
-    G('mapio.' + fn, props, 'mapio', ('SavedGameUnits_' if fn == 'CheckSizeOfUnit' else 'Map_') + fn, replace=MAPIO_R + list(replace), reach=reach, trusted=MAPIO_TRUST, **kw)
+def mapio(fn, props, reach=EXC2, replace=(), trusted=None, **kw):
+    G('mapio.' + fn, props, 'mapio', ('SavedGameUnits_' if fn == 'CheckSizeOfUnit' else 'Map_') + fn, replace=MAPIO_R + list(replace), reach=reach, trusted=trusted or MAPIO_TRUST, **kw)
 mapio('SkipSaveGameHeader', ['C07']); mapio('ReadMapBeginning', ['C07', 'C06'], replace=['Map_ReadTilesetHeader'], timeout=900, flags=['--object-bits', '12'])
 mapio('ReadTilesetHeader', ['C07', 'C06']); mapio('ReadVersionTag', ['C07', 'C06']); mapio('ReadTileGroup', ['C07', 'C06'], flags=['--object-bits', '12'])
 SGU_R = ['vec_ObjectType1_resize', 'SavedGameUnits_CheckSizeOfUnit', 'Rd_ReadUnits', 'Rd_ReadFreeUnits', 'Rd_ReadU32T']
@@ -417,6 +417,12 @@ mapio('WriteTilesetSources', ['C06', 'C18'], replace=['Writer_WriteSized_u32_str
       what='bounded stand-in: tileset source table length equals the description (tile count written iff the name is not empty); proved by loop contract for <= 4 sources')
 mapio('Write', ['C06', 'C18'], reach=EXC2, replace=['Map_CreateHeader', 'Map_WriteTilesetSources_U', 'Map_WriteTileGroups_U', 'Writer_WriteSized_u32_vec_TileMapping', 'Writer_WriteSized_u32_vec_TerrainType'], flags=['--object-bits', '12'], timeout=600,
       what='map writer: sections in the order and with the sizes the reader consumes; version tags, clip rectangle, TILE SET marker and tile bytes at the offsets the layout gives; refusal writes nothing')
+RS_R = ['Map_SkipSaveGameHeader_U', 'Map_ReadMapBeginning_U', 'Map_ReadVersionTag_U', 'Map_ReadSavedGameUnits_U', 'Map_ReadTileGroups_U']
+RS_T = MAPIO_TRUST + ['the steps of ReadMap / ReadSavedGame by use-mode framing contracts (ghost step counter and ghost lengths); their own behaviour: groups mapio.SkipSaveGameHeader, ReadMapBeginning, ReadVersionTag, ReadSavedGameUnits, ReadTileGroups']
+mapio('ReadMap', ['C06', 'C07'], replace=RS_R, trusted=RS_T, what='map file = beginning, tag, tag, tile groups in that order; both tags compared with the map\'s; consumption = sum of the steps')
+mapio('ReadSavedGame', ['C07'], replace=RS_R, trusted=RS_T, what='saved game = 0x1E025 bytes skipped, beginning, tag, unit section, tag in that order')
+mapio('ReadTileGroups', ['C07', 'C06'], replace=['Map_ReadTileGroup_U', 'vec_TileGroup_push_back'], trusted=MAPIO_TRUST + ['ReadTileGroup by a use-mode framing contract; std::vector<TileGroup>::push_back assumed'], flags=['--object-bits', '12'],
+      what='tile group table on arbitrary bytes: safe, terminates, stream valid and monotone')
 mapio('GetWidthInTilesLog2', ['C06', 'C20']); mapio('CreateHeader', ['C06', 'C20'], replace=['Map_GetWidthInTilesLog2']); mapio('WriteContainerSize', ['C20', 'C06'])
 
 G('volw.WriteHeaderFiles.bounded', ['C02', 'C01', 'C18'], 'volw', None, harness='h_vol_write_bounded', defines=['OP2_VOLN=2'], loop_contracts=False, reach=['two members'],
@@ -431,8 +437,8 @@ G('clm.PrepareIndex.bounded', ['C20', 'C03'], 'clm', None, harness='h_clm_prepar
   what='bounded stand-in: PrepareIndex vs the CLM layout in 128-bit arithmetic: refuses iff an offset does not fit 32 bits, else offsets equal the description')
 claim('C20', 'Proved: size-prefixed writes (uint8/16/32 and int8/16 prefixes) refuse a container that does not fit the prefix and otherwise write prefix then data; WriteContainerSize refuses sizes above 2^32-1; CreateHeader refuses a tileset count above 32 bits and a non-power-of-two width; WriteFrame refuses a layer list that disagrees with its 7-bit count (all counts, all flag combinations). Bounded stand-ins (labelled bounded, not proof): VolFile::PrepareHeader and ClmFile::PrepareIndex for <= 3 members with fully symbolic 64-bit sizes against the layout in 128-bit arithmetic: refused iff a size or accumulated offset does not fit its field.',
       'The VOL/CLM accumulated-offset clauses are bounded in the member count (n <= 3), not in the sizes. Refusal before creation of the destination: proved for VolFile::CreateArchive / WriteVolume and ClmFile::CreateArchive at the level of the pipeline order (every refusing step precedes the only step that constructs the FileWriter; the steps themselves by use-mode framing contracts, std::sort / vector plumbing assumed); CLM stored names longer than 8 characters are refused before WriteArchive (arbitrary index). NOT decided: ArtFile count checks.')
-claim('C07', 'For ARBITRARY input bytes over any K_R stream ReadMapBeginning is proved to either throw or return a map whose width is a power of two and whose tile array has exactly height << log2(width) entries (no over-wide shift, no wrapped product, every short read refused), consuming at least the 46 fixed bytes; MapHeader::WidthInTiles/TileCount proved for every exponent <= 31; ReadVersionTag, ReadTilesetHeader, ReadTileGroup, SkipSaveGameHeader proved safe with their exact consumption or refusal; ReadSavedGameUnits proved memory safe on arbitrary bytes and to consume exactly the bytes the layout defines (both object tables sized by their own counts, free-unit table iff first != next free slot; wrong unit size and short input refused).',
-      'ASSUMED abstract contracts: vector resize, Read<uint32_t>(container), ReadTilesetSources. NOT decided: ReadTileGroups loop, saved game vs map equivalence, resource exhaustion.')
+claim('C07', 'For ARBITRARY input bytes over any K_R stream ReadMapBeginning is proved to either throw or return a map whose width is a power of two and whose tile array has exactly height << log2(width) entries (no over-wide shift, no wrapped product, every short read refused), consuming at least the 46 fixed bytes; MapHeader::WidthInTiles/TileCount proved for every exponent <= 31; ReadVersionTag, ReadTilesetHeader, ReadTileGroup, SkipSaveGameHeader proved safe with their exact consumption or refusal; ReadSavedGameUnits proved memory safe on arbitrary bytes and to consume exactly the bytes the layout defines (both object tables sized by their own counts, free-unit table iff first != next free slot; wrong unit size and short input refused); ReadTileGroups proved memory safe and terminating on arbitrary bytes; the pipelines ReadMap (beginning, tag, tag, tile groups) and ReadSavedGame (0x1E025 bytes skipped, the same beginning, tag, unit section, tag) proved to run their steps in exactly that order, to compare both version tags with the tag of the map just read, and to consume the sum of the steps\' lengths - so a saved game embeds exactly the section sequence a map file starts with.',
+      'ASSUMED abstract contracts: vector resize, Read<uint32_t>(container), ReadTilesetSources. The pipeline steps are bound to use-mode framing contracts (ghost step counter, ghost lengths). NOT decided: field-level equality of the map yielded by a saved game and by the embedded map file, resource exhaustion.')
 claim('C06', 'Header layer of the round trip proved: CreateHeader writes every header field from the map (width as its base-2 logarithm, saved flag normalised to 0/1), GetWidthInTilesLog2 / Log2OfPowerOf2 / IsPowerOf2 exact, MapHeader and Map constructors deterministic and as specified, version-tag checks exact, WriteContainerSize byte-exact; the tile index formula (C16 group); Map::Write proved to emit the sections in the order and with the sizes the reader consumes them (header, tiles, clip rectangle, tileset sources, TILE SET marker, size-prefixed mappings and terrain types, version tag twice, tile groups), with the version tags, the clip rectangle, the marker and the tile bytes at the offsets that layout gives, and to write nothing when it refuses; reader-side framing facts as in C07. Bounded stand-in: WriteTilesetSources writes exactly the table the reader consumes (tile count iff the name is not empty) for <= 4 sources.',
       'ASSUMED in Map::Write: the sub-writers by framing contracts (their lengths are ghosts). NOT decided: the container-level round trip (Write(Read(b)) = normalise(b)), WriteTileGroups, WriteTilesetSources beyond 4 sources, editing operations other than SetCellType / SetLavaPossible (proved in C16), TrimTilesetSources (lambda).')
 claim('C01', 'Proved: the comparator that orders members is a strict weak order whose incomparability is case-insensitive equality (C19 lemmas); adjacent-duplicate detection throws iff two neighbouring names are equal ignoring case; GetIndex/Contains find a member by the least matching index and agree; the reader-to-writer copy transfers exactly the remaining bytes for every chunk size; VOL section headers serialise tag, 31-bit length and padding flag exactly; the VOL reader returns exactly the recorded extents and sizes. Bounded stand-ins: PrepareHeader (n <= 3) and PrepareHeader+WriteHeader+WriteFiles byte-for-byte against an independent encoder (n <= 2, tiny names/payloads).',
@@ -441,7 +447,7 @@ claim('C02', 'Writer => format: bounded byte-for-byte comparison of the written 
       'Bounded in the member count for the writer side. NOT decided: name table content (ReadStringTable is abstract), acceptance by the game.')
 NOT_DECIDED.update({
  'C20': ['ArtFile animation/frame count checks', 'VOL/CLM offsets: bounded in member count', 'pipeline steps of CreateArchive are bound to abstract framing contracts (std::sort, vector plumbing assumed)'],
- 'C07': ['ReadTileGroups loop, saved-game equivalence, resource exhaustion'],
+ 'C07': ['field-level saved-game vs map equivalence (pipeline order and consumption are decided)', 'resource exhaustion'],
  'C06': ['container-level round trip and byte stability', 'WriteTileGroups; WriteTilesetSources beyond 4 sources', 'TrimTilesetSources'],
  'C01': ['layout clauses bounded in member count', 'path spelling (ComparePathFilenames composition), std::sort itself, extraction to disk'],
  'C02': ['writer side bounded in member count', 'ReadStringTable content', 'acceptance by the game'],
